@@ -168,7 +168,7 @@ def call_builtin(fr, f, args: list, kwargs: dict, node: ast.AST | None) -> Any:
     if name == "tuple":
         return tuple(fr.iterate(args[0])) if args else ()
     if name in ("set", "frozenset"):
-        items = fr.iterate(args[0]) if args else []
+        items = fr.iterate(args[0], True) if args else []
         try:
             return frozenset(items)
         except TypeError:
@@ -192,9 +192,9 @@ def call_builtin(fr, f, args: list, kwargs: dict, node: ast.AST | None) -> Any:
         fn, seq = args
         return pai._Gen([fr.call(fn, [x], {}, node) for x in fr.iterate(seq)])
     if name == "any":
-        return any(fr.truth(x) for x in fr.iterate(args[0]))
+        return any(fr.truth(x) for x in fr.iterate(args[0], True))
     if name == "all":
-        return all(fr.truth(x) for x in fr.iterate(args[0]))
+        return all(fr.truth(x) for x in fr.iterate(args[0], True))
     if name in ("max", "min"):
         items = fr.iterate(args[0]) if len(args) == 1 else list(args)
         if not items:
@@ -246,7 +246,7 @@ def call_builtin(fr, f, args: list, kwargs: dict, node: ast.AST | None) -> Any:
             return pai.TypeRef(("NoneType",))
         raise AnalysisError(f"type() of {v!r}")
     if name == "sorted":
-        items = fr.iterate(args[0])
+        items = fr.iterate(args[0], True)
         if kwargs:
             raise AnalysisError("sorted with key")
         if all(isinstance(x, (str, int, float)) for x in items) and len({type(x) for x in items}) <= 1:
@@ -450,7 +450,7 @@ def call_method(fr, recv: Any, name: str, args: list, kwargs: dict, node: ast.AS
         if name == "union":
             out_s = frozenset(recv)
             for a in args:
-                out_s = out_s | frozenset(fr.iterate(a))
+                out_s = out_s | frozenset(fr.iterate(a, True))
             return out_s
         raise AnalysisError(f"set method {name}")
     # --- dicts --------------------------------------------------------------------------------
